@@ -566,3 +566,24 @@ rw [e3]
 simp only [ite_mul, one_mul, zero_mul, mul_ite, mul_one, mul_zero]
 simp only [Finset.sum_ite_eq', Finset.sum_ite_eq, hi, hj, if_true]
 """)
+
+
+# ---- ledger: a quantity that starts at zero and grows by x[k] at step k is the sum of the x[k] ---------------------------
+lemma("ledger_induction",
+      types={"n": "int", "T": "carr1", "x": "carr1"},
+      hyps=[("hn", "n >= 0"), ("h0", "T[0] == 0"), ("hstep", "forall(k, range(0, n), T[k+1] == T[k] + x[k])")],
+      concl="T[n] == Sum(k, range(0, n), x[k])",
+      proof="""
+have key : ∀ m : ℤ, 0 ≤ m → m ≤ n → T m = ∑ k ∈ Finset.Ico (0:ℤ) m, x k := by
+  intro m hm
+  induction m, hm using Int.le_induction with
+  | base => intro _; simp [h0]
+  | succ m hm ih =>
+    intro hle
+    have hlt : m < n := by omega
+    rw [hstep m hm hlt, ih (by omega)]
+    have hins : Finset.Ico (0:ℤ) (m+1) = insert m (Finset.Ico 0 m) := by
+      ext y; simp [Finset.mem_Ico]; omega
+    rw [hins, Finset.sum_insert (by simp)]; ring
+exact key n (by omega) le_rfl
+""")
